@@ -84,6 +84,38 @@ SPEC += [
     "interface\nsubroutine ext(a)\nreal a\nend subroutine ext\nend interface", "abstract interface\nfunction fi(x) result(r)\nreal x, r\nend function fi\nend interface",
     "interface operator(.dot.)\nmodule procedure dotp\nend interface operator(.dot.)", "interface assignment(=)\nmodule procedure assign_t\nend interface", "interface read(formatted)\nmodule procedure rf\nend interface",
 ]
+# every optional part of a rule at least once (steps, strides, masks, attribute lists with an empty interface, renames ...)
+EXEC += [
+    "do i = 1, 10, 2\nx = i\nend do", "do 10 i = n, 1, -1\n10 continue", "do while (i < n .and. .not. done)\ni = i + 1\nend do", "do\nexit\nend do",
+    "print *, (a(i), i = 1, 10, 2)", "print *, ((m(i, j), i = 1, 3, 2), j = 1, 2)", "write(*, *) (a(i), b(i), i = 1, n, k)", "read(5, *) (v(i), i = 1, n, 2)",
+    "v = (/ (i, i = 1, 9, 3) /)", "v = [((i + j, i = 1, 2), j = 1, 6, 2)]", "v = [integer :: 1, 2]", "v = (/ real(8) :: (x(i), i = 1, n, 2) /)",
+    "forall (i = 1:n:2, j = 1:m, a(i, j) > 0) b(i, j) = 1", "forall (i = 1:n:2)\na(i) = 0\nend forall", "b = a(1:10:2)", "b = a(:, ::2)", "b = a(:n, m:)", "b = a(::k)",
+    "t = s(2:)", "t = s(:3)", "t = s(i:j)(1:1)", "t = names(2)(1:3)", "x = obj%arr(1:n:2)%f", "associate (z => a(1:n:2), w => x + 1)\nz = w\nend associate",
+    "select case (k)\ncase (1, 3:5, 9:)\nx = 1\ncase (:0)\nx = 2\ncase default\nx = 3\nend select", "select case (c)\ncase ('a':'f', 'x')\nx = 1\nend select",
+    "select type (q => p)\ntype is (integer)\nx = 1\ntype is (real(8))\nx = 2\nclass is (t)\nx = 3\nclass default\nx = 4\nend select",
+    "where (m)\na = 1\nelsewhere (m2)\na = 2\nelsewhere\na = 3\nend where", "if (a) then\nx = 1\nelse if (b) then\nx = 2\nelse\nx = 3\nend if",
+    "call s(a(1:n:2), b=x(:, 1), c=(/1, 2/))", "call s(f(g(x), y=2), *10)", "x = f(a=1, b=g(2))", "allocate(a(0:n - 1, -1:1), source=b, stat=ierr, errmsg=msg)", "allocate(t :: obj)",
+    "allocate(character(len=n) :: cs(3))", "allocate(a(n), mold=b)", "open(newunit=u, file='f', status='replace', form='formatted', position='append', iostat=ios, iomsg=msg)",
+    "close(u, status='keep', err=10, iomsg=msg)", "read(unit=u, fmt=*, iostat=ios, iomsg=msg, end=10) a", "write(u, '(3(i2, 1x))', advance='no', err=10) k",
+    "write(unit=*, fmt='(a)', iostat=ios) 'x'", "inquire(unit=u, opened=o, named=nm, name=fn, access=ac, form=fm, recl=rl, nextrec=nr, iostat=ios)", "wait(unit=u, id=k, iostat=ios)",
+    "stop", "error stop", "return", "goto 10", "x = +a", "x = -(-a)", "l = a > b .or. c <= d .and. .not. e", "l = a == b .eqv. c /= d", "c = 'a' // 'b' // trim(s)", "x = a ** (-b)",
+    "x = 1.0d0 + 2.5e-3 - 3. + .5 - 1e5 + 0.1_dp", "k = 12_8 + b'101' + o'17' + z'ff'", "l = .true._4 .and. .false.", "z = (1.0, 2.0) * (a, b)", "nullify(obj%p, q(1)%r)", "p => obj%q(1)%r", "p => null()",
+]
+SPEC += [
+    "data (c(i), i = 1, 9, 2) / 5*7 /", "data ((m(i, j), i = 1, 3, 2), j = 1, 2) / 4*0 /", "data a(1), a(2) / 1, 2 /, b / 3*0.0 /", "data t%k / 4 /", "data z / (1.0, 2.0) /", "data k / z'ff' /, n / -1 /",
+    "procedure(), pointer :: pe => null()", "procedure(), pointer, save :: ps", "procedure(real), save :: q2", "procedure(f) :: r1, s1 => null()", "procedure(f), public, pointer :: pq => g",
+    "integer, dimension(0:n - 1, -1:1) :: lb", "real, dimension(:, :, :), allocatable, save :: cube", "integer, parameter, dimension(2) :: pd = (/1, 2/)", "character(len=:), allocatable :: ds",
+    "character(len=*, kind=1), parameter :: cp = 'x'", "character(kind=1, len=3) kc", "character*(*) cstar", "character*(n + 1) cn", "character c1*3, c2*(*), c3(2)*4", "real*4 r4, r8*8",
+    "integer(kind=4), intent(in), value :: iv", "real, intent(out), dimension(:), contiguous :: co", "type(t), intent(in out), target :: tt", "real, volatile, asynchronous :: va2",
+    "integer, protected, bind(c, name='gv') :: gv", "real, external, pointer :: fp", "use m6, only: a, b => c, operator(+), assignment(=), d", "use, intrinsic :: iso_c_binding, only: c_int, cl => c_long",
+    "implicit integer(kind=8) (i-k), real*8 (x), logical (l)", "parameter (a = 1, b = (/1, 2/), c = 'x')", "equivalence (a(1), b), (c, d(2), e(1, 1))", "common /blk/ a(3), b /blk2/ c(2, 2)", "namelist /nl/ a, b, c /nl2/ d",
+    "save", "intent(in out) :: io1", "dimension :: dd(3)", "intrinsic sin, cos", "type, extends(base), abstract, private :: ab\nend type ab",
+    "type :: tbp\ncontains\nprivate\nprocedure, nopass :: np\nprocedure, non_overridable, pass :: no => impl2\nprocedure(iface), deferred, pass(me) :: df\ngeneric, public :: assignment(=) => asg\ngeneric :: read(formatted) => rf\nfinal :: f1, f2\nend type tbp",
+    "type :: comp\ninteger, dimension(3) :: d3 = 0\nreal, pointer :: rp(:) => null()\nprocedure(iface), pointer, nopass :: pc => null()\nprocedure(), pointer, pass(x) :: pd\ntype(comp), allocatable :: child(:)\ncharacter(len=8) :: nm = 'x'\nend type comp",
+    "interface gen\nmodule procedure a1, a2\nprocedure a3\nend interface gen", "interface\nfunction ff(x) result(r) bind(c, name='ff')\nreal, value :: x\nreal :: r\nend function ff\nend interface",
+    "interface\npure elemental real function pe2(x)\nreal, intent(in) :: x\nend function pe2\nrecursive subroutine rs(n)\ninteger n\nend subroutine rs\nend interface",
+    "enum, bind(c)\nenumerator :: a1 = 1, a2, a3 = 5\nend enum",
+]
 IFACE = ["procedure f", "module procedure f", "module procedure f, g", "procedure :: f", "procedure :: f, g", "module procedure :: f", "subroutine s(a)\ninteger a\nend subroutine s",
          "function f(x)\nreal x\nend function f"]
 FORMATS = ["a // a", "i3, /, /, a", "a, :, :, i2", "2/, a", "i2, 3x, /, /, /", "1x, i5", "i5", "f10.3", "a", "3(i2, 1x)", "'text'", "e12.4", "2i5", "a, /, a", "i5.3, es12.4", "l1, g10.3", "tr2, tl1, t10"]
